@@ -177,15 +177,26 @@ class G:
             return St("reassign", [first, "v%d = %s" % (n, self.e(ty))],
                       [("wrong_reassign", [first, "v%d = %s" % (n, w)], (1, 1), "%s <- %s" % (ty, t2)),
                        ("wrong_reassign", [first, "v%d: %s = %s" % (n, t2, w)], (1, 1), "retyped %s -> %s" % (ty, t2))])
-        # the variable is declared OUTSIDE the block, the re-assignment sits inside it (every kind of block, two deep too)
+        # the variable is declared OUTSIDE the block, the re-assignment sits inside it: EVERY kind of block (two deep too)
+        # in every instance, one mutant per kind
         wraps = [(["if gb {"], ["}"]), (["while gb {"], ["  break", "}"]), (["from 0 to 1 {"], ["}"]), (["from 0 to 1, rb%d {" % n], ["}"]),
                  (["if !gb {", "  rz%d = 0" % n, "} else {"], ["}"]), (["if !gb {", "  rz%d = 0" % n, "} else if gi > 0 {"], ["}"]),
                  (["from 0 to 1 {", "if gb {"], ["}", "}"]), (["while gb {", "from 0 to 1, rc%d {" % n], ["}", "  break", "}"]),
                  (["if gb {", "while gb {"], ["  break", "}", "}"])]
-        head, tail = self.r.choice(wraps)
-        k = len(head) + 1
-        return St("reassign_in_block", [first] + head + ["  v%d = %s" % (n, self.e(ty))] + tail,
-                  [("wrong_reassign", [first] + head + ["  v%d = %s" % (n, w)] + tail, (k, k), "%s <- %s (declared outside %s)" % (ty, t2, head[-1].strip()))])
+        base, spots = [], []
+        for j, (head, tail) in enumerate(wraps):
+            decl = first.replace("v%d" % n, "v%dw%d" % (n, j))
+            base.append(decl)
+            base += head
+            spots.append((len(base), j, head[-1].strip()))
+            base.append("  v%dw%d = %s" % (n, j, self.e(ty)))
+            base += tail
+        muts = []
+        for pos, j, where in spots:
+            m = list(base)
+            m[pos] = "  v%dw%d = %s" % (n, j, w)
+            muts.append(("wrong_reassign", m, (pos, pos), "%s <- %s (declared outside %s)" % (ty, t2, where)))
+        return St("reassign_in_block", base, muts)
 
     def t_call1(self):
         n, ty = self.uid(), self.r.choice(["int", "str", "float"])
